@@ -53,7 +53,76 @@ def _template():
     return t.astype(np.float32)
 
 
+def _template_even():
+    """8^3 template: its centre (3.5, 3.5, 3.5) is a half pixel, so picks sit on half pixels."""
+    zz, yy, xx = np.indices((8, 8, 8)).astype(np.float32)
+    t = np.exp(-((zz - 3.5) ** 2 + (yy - 3.5) ** 2 + (xx - 3.5) ** 2) / 4.0) + 0.9 * np.exp(-((zz - 1.5) ** 2 + (yy - 3.5) ** 2 + (xx - 5.5) ** 2) / 1.5)
+    t += 0.7 * np.exp(-((zz - 4.5) ** 2 + (yy - 6) ** 2 + (xx - 2.5) ** 2) / 1.5)
+    t[t < 0.02] = 0
+    return t.astype(np.float32)
+
+
+def _rot_cube(img, m):
+    """Exact voxel permutation of a cube (even or odd) about its centre: out[c + m u] = img[c + u], in doubled coordinates."""
+    n = img.shape[0]
+    u2 = 2 * np.indices(img.shape).reshape(3, -1) - (n - 1)
+    dst = (np.asarray(m).round().astype(int) @ u2 + (n - 1)) // 2
+    out = np.zeros_like(img)
+    out[tuple(dst)] = img[tuple((u2 + (n - 1)) // 2)]
+    return out
+
+
+def replay_even(case) -> dict:
+    """Even-sized template: the particles' centres are half pixels; chunk boundaries at, just before and just after a centre."""
+    import dask.array as da
+    from scipy.spatial.transform import Rotation
+    from acryo import pick
+    from harness.lattice import geodesic_deg
+
+    shape = tuple(case["extents"])
+    chunks = tuple(tuple(c) for c in case["chunks"])
+    scale = case["scale"]
+    tmpl = _template_even()
+    R = [np.eye(3, dtype=int), np.array([[1, 0, 0], [0, 0, -1], [0, 1, 0]]), np.array([[0, 1, 0], [0, 0, 1], [1, 0, 0]])]
+    use_rot = case["rotations"]
+    centres = [tuple(x / 2 for x in p) for p in case["plants2"]]
+    img = np.zeros(shape, np.float32)
+    planted = {}
+    for i, c in enumerate(centres):
+        m = R[i % 3] if use_rot else R[0]
+        k = [int(round(x - 3.5)) for x in c]
+        img[k[0] : k[0] + 8, k[1] : k[1] + 8, k[2] : k[2] + 8] += _rot_cube(tmpl, m)
+        planted[c] = m
+    picker = pick.ZNCCTemplateMatcher(tmpl, rotation=[Rotation.from_matrix(m.astype(float)) for m in R] if use_rot else None)
+    desc = dict(picker="ZNCC", layout="even_template", scale=scale, rotations=use_rot, chunks=[list(c) for c in chunks], as_numpy=case["as_numpy"])
+    arr = img if case["as_numpy"] else da.from_array(img, chunks=chunks)
+    mol, exc = engine.api_try(picker.pick_molecules, arr, scale, min_distance=4.0 * scale, min_score=0.6)
+    if exc is not None:
+        return dict(failures=[dict(desc, clause="Raised", error=f"{exc.kind}: {exc.msg[:80]} @ {exc.where}")])
+    got = np.asarray(mol.pos, dtype=np.float64) / scale
+    fails, used = [], set()
+    for c in centres:
+        d = np.linalg.norm(got - np.array(c), axis=1) if len(got) else np.array([])
+        exact = [int(j) for j in np.flatnonzero(d <= 0.3)]
+        near = [int(j) for j in np.flatnonzero(d <= 2.5)]
+        if not exact:
+            fails.append(dict(desc, clause="ParticleFound", particle=list(c), nearest=[round(float(x), 2) for x in got[int(np.argmin(d))]] if len(got) else None))
+        if len(near) > 1:
+            fails.append(dict(desc, clause="NoDuplicates", particle=list(c), count=len(near), picks=[[round(float(x), 2) for x in got[j]] for j in near]))
+        used.update(near)
+        if exact and use_rot:
+            ang = geodesic_deg(mol.rotator[exact[0]], Rotation.from_matrix(planted[c].astype(float)))
+            if ang > 0.1:
+                fails.append(dict(desc, clause="RotationOfPick", particle=list(c), angle=round(ang, 2)))
+    extra = [j for j in range(len(got)) if j not in used]
+    if extra:
+        fails.append(dict(desc, clause="NoMisplacedPicks", count=len(extra), first=[round(float(x), 2) for x in got[extra[0]]]))
+    return dict(failures=fails, classes={"picks": int(len(got))})
+
+
 def replay(case) -> dict:
+    if case.get("layout") == "even_template":
+        return replay_even(case)
     import dask.array as da
     from scipy.spatial.transform import Rotation
     from acryo import pick
@@ -120,7 +189,8 @@ def replay(case) -> dict:
 def run(rep: engine.Report, tier: str, seed: int):
     mc = rep.add_tlc(engine.tlc("MC_C20", "MC_C20", workers=1, timeout=900))
     slabs = [f for f in mc.emitted if f.get("slab")]
-    fams = [f for f in mc.emitted if not f.get("slab")]
+    evens = [f for f in mc.emitted if f.get("even")]
+    fams = [f for f in mc.emitted if not f.get("slab") and not f.get("even")]
     if not fams or not slabs:
         raise engine.MachineryError("MC_C20 emitted no chunk families")
     cases = []
@@ -141,6 +211,14 @@ def run(rep: engine.Report, tier: str, seed: int):
                 cases.append(dict(extents=fams[0]["extents"], chunks=[[n] for n in fams[0]["extents"]], picker=picker, scale=sc, as_numpy=True, dtype="float32", layout="diagonal", corner=corner))
                 for f in (fams[1], fams[3], fams[-3]):
                     cases.append(dict(extents=f["extents"], chunks=f["chunks"], picker=picker, scale=sc, as_numpy=False, dtype="float32", layout="diagonal", corner=corner))
+    if not evens:
+        raise engine.MachineryError("MC_C20 emitted no even-template families")
+    for use_rot in (False, True):
+        for sc in (1.0, 0.5):
+            cases.append(dict(layout="even_template", extents=evens[0]["extents"], chunks=[[n] for n in evens[0]["extents"]], plants2=evens[0]["plants2"], scale=sc, rotations=use_rot, as_numpy=True))
+            for f in evens:
+                if sc == 1.0 or tier != "quick" or len(f["chunks"][0]) + len(f["chunks"][1]) + len(f["chunks"][2]) > 4:
+                    cases.append(dict(layout="even_template", extents=f["extents"], chunks=f["chunks"], plants2=f["plants2"], scale=sc, rotations=use_rot, as_numpy=False))
     results = engine.parallel_replay("harness.props.c20", "replay", cases, sync_dask=True)
     engine.collect(rep, cases, results, key=lambda c: c)
     rep.exhaustive = True
@@ -153,7 +231,9 @@ def run(rep: engine.Report, tier: str, seed: int):
         f"(interior, next to chunk boundaries, near faces) in a 40x44x48 image picked by LoG / DoG / ZNCC template matcher (3 searched "
         f"rotations, planted rotated templates) as numpy and under {len(fams)} dask chunk families (incl. chunks smaller than the overlap "
         f"depth, which dask merges), scales, uint8 input; plus a diagonal layout (pairs at the corner offset of the cube enclosing "
-        f"the exclusion ball, from TLC) for LoG and the template matcher, and a slab thinner than the overlap depth; {len(cases)} cases"
+        f"the exclusion ball, from TLC) for LoG and the template matcher, a slab thinner than the overlap depth, and an EVEN-sized template "
+        f"(picks on half pixels; {len(evens)} chunkings with a boundary 1.5 / 0.5 px before and after a particle centre on each axis, with and "
+        f"without rotation search; Picker.tla: half-open ownership of half pixels, landscape edge outside the keep-window); {len(cases)} cases"
     )
 
 
